@@ -206,4 +206,37 @@ func TestVerifC04Oversized(t *testing.T) {
 			r.Violate("signature-change/"+sp.name, fmt.Sprintf("%s -> %s: %s, yet sfw diff reports %s as preserved (fingerprint_match=%v, added=%v removed=%v)", sp.old, sp.new, sp.why, fd.Function, fd.FingerprintMatch, fd.AddedOps, fd.RemovedOps), map[string]interface{}{"pair": sp.name})
 		}
 	}
+	// a callee swapped for the function of the same NAME in a package of the same NAME at another
+	// import path (two local packages "auth"; math/rand and crypto/rand; text/ and html/template):
+	// the call site reads the same, only the import changes
+	if sh, _ := vh.Shard(); sh == 0 {
+		mod := filepath.Join(scratch, "samepkgname")
+		write := func(rel, content string) {
+			p := filepath.Join(mod, rel)
+			os.MkdirAll(filepath.Dir(p), 0o755)
+			os.WriteFile(p, []byte(content), 0o644)
+		}
+		for _, side := range []string{"o", "n"} {
+			write(side+"/go.mod", "module testmod\n\ngo 1.21\n")
+			write(side+"/auth/auth.go", "package auth\n\nfunc Allowed(role string) bool { return role == \"admin\" }\n")
+			write(side+"/legacy/auth/auth.go", "package auth\n\nfunc Allowed(role string) bool { return role != \"\" }\n")
+		}
+		mainSrc := func(imp string) string {
+			return "package main\n\nimport \"" + imp + "\"\n\nfunc CanDelete(role string) bool {\n\tif auth.Allowed(role) {\n\t\treturn true\n\t}\n\treturn false\n}\n\nfunc main() { _ = CanDelete(\"guest\") }\n"
+		}
+		write("o/main.go", mainSrc("testmod/auth"))
+		write("n/main.go", mainSrc("testmod/legacy/auth"))
+		out, err := ComputeDiff(RealFileSystem{}, filepath.Join(mod, "o", "main.go"), filepath.Join(mod, "n", "main.go"))
+		r.Eval()
+		if err != nil {
+			r.Fail("ComputeDiff(same package name): %v", err)
+			return
+		}
+		r.Nontrivial("callee-swap/same-package-name")
+		for _, fd := range out.Functions {
+			if fd.Function == "CanDelete" && fd.Status == "preserved" {
+				r.Violate("callee-swap/same-package-name", fmt.Sprintf("CanDelete calls auth.Allowed; the old file imports testmod/auth (Allowed(\"guest\") is false), the new one testmod/legacy/auth (true): reported preserved (fingerprint_match=%v)", fd.FingerprintMatch), nil)
+			}
+		}
+	}
 }
